@@ -162,7 +162,7 @@ static const char *watched_rel(int dirfd, const char *path, char *out) {
     snprintf(tmp, sizeof tmp, "%s", abs);
     for (char *c = strtok_r(tmp, "/", &save); c; c = strtok_r(NULL, "/", &save)) {
         if (strcmp(c, ".") == 0) continue;
-        if (strcmp(c, "..") == 0) { if (np > 0) np--; continue; }
+        /* ".." is NOT collapsed: across a symlinked directory that would name a different file */
         if (np < 512) parts[np++] = c;
     }
     char norm[PATH_MAX * 2];
